@@ -12,7 +12,7 @@ from . import common
 ID = "C06"
 NEEDS_MODEL = True
 LEVEL = "exploration"
-N = {"quick": 3200, "thorough": 40000}
+N = {"quick": 3200, "thorough": 100000}
 TECHNIQUE = ("runtime monitoring: definite-assignment monitor over the text of every program the "
              "real compiler emits for seeded generated specs (all modes) + NameError observer on "
              "instrumented executions")
